@@ -83,15 +83,15 @@ Definition grant_ghost (j : N) (ob : nobs) : list (N * N * N) :=
   | _ => []
   end.
 
-Definition gstep (cfg : config) (g : gstate) (l : glabel) : option gstate :=
+Definition gstep (cfgs : list config) (g : gstate) (l : glabel) : option gstate :=
   match l with
   | GTimeout i =>
     match find_node (g_nodes g) i with
     | Some n =>
       match gn_run n with
       | Up s =>
-        (* only elections held under the configuration cfg are part of this system *)
-        if negb (config_eqb (v_latest s) cfg) || (v_role s =? Leader) then None   (* a leader has no such timer *)
+        (* only elections held under one of the configurations cfgs are part of this system *)
+        if negb (existsb (config_eqb (v_latest s)) cfgs) || (v_role s =? Leader) then None   (* a leader has no such timer *)
         else
           let s0 := match gn_sess n with Some _ => set_transfer s false | None => s end in
           let '(x, _) := sess_enter (gn_P n) false s0 in
@@ -172,10 +172,10 @@ Definition gstep (cfg : config) (g : gstate) (l : glabel) : option gstate :=
     end
   end.
 
-Fixpoint grun (cfg : config) (g : gstate) (ls : list glabel) : option gstate :=
+Fixpoint grun (cfgs : list config) (g : gstate) (ls : list glabel) : option gstate :=
   match ls with
   | [] => Some g
-  | l :: r => match gstep cfg g l with Some g' => grun cfg g' r | None => None end
+  | l :: r => match gstep cfgs g l with Some g' => grun cfgs g' r | None => None end
   end.
 
 (* ---------------------------------------------------------------- flat encoding (component 1) *)
@@ -220,7 +220,7 @@ Fixpoint run_glabels (cfg : config) (fuel : nat) (g : gstate) (l : list N) : lis
     match dec_glabel l with
     | None => []
     | Some (lb, rest) =>
-      match gstep cfg g lb with
+      match gstep [cfg] g lb with
       | Some g' => (1 :: enc_gstate g') ++ run_glabels cfg f g' rest
       | None => 0 :: run_glabels cfg f g rest
       end
